@@ -29,6 +29,13 @@ Pairs3 == IF K >= 3 THEN {[properties |-> [a |-> s1, b |-> s2]] : s1 \in Lvl1 \c
 Roots(z) == UNION {Pairs3, {[properties |-> [a |-> s]] : s \in Subs}}
             \cup {[properties |-> [a |-> s, b |-> [default |-> Bool(TRUE)]], required |-> r] : s \in Lvl1, r \in {<<>>, <<"a">>, <<"b">>}}
             \cup {TrueS, FalseS, [default |-> Num(R_1)], [items |-> [properties |-> [a |-> [default |-> Num(R_1)]]]]}
+            \* a default on a REQUIRED property is never applied, but it is a default in the schema tree all the same:
+            \* ValidateDefaults checks it (valid and invalid ones, at the root and below)
+            \cup {[properties |-> [a |-> IntS @@ [default |-> d]], required |-> <<"a">>] : d \in {Str("a"), Num(R_1), Null}}
+            \cup {[properties |-> [a |-> [type |-> "object", required |-> <<"x">>, properties |-> [x |-> [type |-> "string", default |-> d]]]]] :
+                    d \in {Str("a"), Num(R_1)}}
+            \cup {[properties |-> [a |-> [required |-> <<"x", "n">>, properties |-> [x |-> TrueS, n |-> [properties |-> [x |-> IntS @@ [default |-> Str("a")]]]]]],
+                   required |-> <<"a">>]}
             \* three levels BELOW a subschema that declares its own default: default -> (no default) -> default;
             \* the inserted default is completed with containers for the default-less level too
             \cup {[properties |-> [a |-> [default |-> d, properties |-> [n |-> [properties |-> [x |-> [default |-> Num(R_2)]]]]]]] :
